@@ -59,6 +59,11 @@ fn real_record(r: &ScanIndex) -> Record {
             scalars.insert(k.to_string(), v.clone());
         }
     }
+    // the sixteenth public field: nothing in the input is allowed to fill it (there is no
+    // DEPENDS key among the fifteen), so a non-empty value shows up as a stray scalar
+    if !r.depends.is_empty() {
+        scalars.insert("<depends field>".to_string(), r.depends.iter().map(|d| d.pkgname().to_string()).collect::<Vec<_>>().join(" "));
+    }
     Record {
         pkgname: r.pkgname.pkgname().to_string(),
         // normalised: category/package
@@ -331,6 +336,7 @@ fn main() {
             "MAINTAINER=", "PKG_SKIP_REASON=  ", "CATEGORIES=", "PKG_LOCATION=", "PBULK_WEIGHT=",
             "PKGNAMEX=zz-9", "PKGNAME_OLD=b-2", "pkgname=z-1", "maintainer=zz", "XMAINTAINER=q", "MAINTAINERS=q", "Maintainer=q", "ALL_DEPENDSX=bad", "all_depends=bad", "PKG_LOCATIONS=nope",
             "PKGNAME=", "=PKGNAME=a-1", "PKGNAME", "PKGNAME=d-4=5",
+            "DEPENDS=x-1 y-2", "DEPENDS=", "BUILD_DEPENDS=x-1", "DEPEND=x-1", "SCAN_DEPENDS_X=f", "MULTI_VERSIONS=A=1", "PKGPATH=c/p", "PKG_LOCATION_OLD=c/p", "COMMENT=c", "HOMEPAGE=h",
         ]);
         let n2 = run.pick(3, 4);
         run.bound(format!("all {} sequences of <= {} lines over the base alphabet plus {} lines (empty scalar values, unknown keys extending or case-folding known keys)", seqs::count(lines2.len(), n2), n2, lines2.len() - LINES.len()));
